@@ -299,7 +299,7 @@ func run(r *eng.Runner) {
 	// up to wide children every known block takes every option; deeper levels only vary block a (and a nested block, if any)
 	wide, maxChildren := 2, 4
 	if !r.Quick() {
-		wide, maxChildren = 3, 5
+		wide, maxChildren = 3, 4
 	}
 	formDepth := 3 // chains of up to this many templates are also run with block.Super used twice / tested in an if
 	if !r.Quick() {
